@@ -90,6 +90,11 @@ func (p *Program) immutableGlobal(g *ssa.Global) bool {
 						} else if x.Addr != ssa.Value(g) || !inInit {
 							res = false
 						}
+					case *ssa.Slice:
+						// table[:] handed on: constant as long as the slice is only read
+						if x.X != ssa.Value(g) || !readOnlyUse(x, 0, map[ssa.Value]bool{}) {
+							res = false
+						}
 					case *ssa.DebugRef:
 					default:
 						// the address itself is used as a value (kept in a struct field, handed to a function): still constant
